@@ -274,9 +274,9 @@ def scenarios(tier, rnd):
         bodies = {"delay": ["val", "slow", "throw1", "throw"], "promise": ["-"],
                   "future": ["val", "slow", "throw", "timeout"]}
         n = 0
-        while n < 40:
+        while n < 24:
             kind = rnd.choice(["delay", "promise", "future"])
-            progs = [[rnd.choice(ops[kind]) for _ in range(rnd.randint(1, 3))] for _ in range(rnd.randint(2, 4))]
+            progs = [[rnd.choice(ops[kind]) for _ in range(rnd.randint(1, 2))] for _ in range(rnd.randint(2, 3))]
             sc = {"kind": kind, "body": rnd.choice(bodies[kind]), "progs": progs}
             if feasible(sc):
                 scs.append(sc)
@@ -342,7 +342,7 @@ def design_checks(chk):
         for f in futs:
             (cfg, must_hold, _), r, err = f.result()
             if err is not None:
-                chk.machinery("design check %s: %s" % (cfg, str(err)[:1500]))
+                chk.machinery("design check %s: %s" % (cfg, str(err)[-1500:]))
                 continue
             chk.add_tlc(cfg, r)
             if must_hold and (r.violated or not r.ok):
@@ -420,9 +420,9 @@ def run(chk):
                 "history in which two calls overlap")
     scs = scenarios(chk.tier, rnd)
     max_pre = 2 if chk.tier == "quick" else 3
-    limit = 650 if chk.tier == "quick" else 3000
+    limit = 650 if chk.tier == "quick" else 1200
     ctx = mp.get_context("fork")
-    with ctx.Pool(14) as pool:           # forked before any thread exists in this process
+    with ctx.Pool(12) as pool:           # forked before any thread exists in this process
         collect = design_checks(chk)     # TLC design checks run in the background meanwhile
         results = pool.map(explore_scenario, [(sc, max_pre, limit, chk.seed + i) for i, sc in enumerate(scs)],
                            chunksize=1)
